@@ -13,6 +13,7 @@
 //!                passed_objects(position), compared through Debug text
 //!                (bitwise for floats)            (skipped inside known classes)
 
+use std::fmt::Write as _;
 use crate::absmap::{concretize, profile, AbsObj};
 use crate::settings::{cfgs, Cfg};
 use crate::util::*;
@@ -1014,6 +1015,34 @@ pub fn record_main(args: &[String]) -> i32 {
                         record_sessions(&mut rec, &mut rng, t2, &conv, &cfg, &format!("tangled osu #{i} as {t2} {:?}", cfg.acronyms));
                     }
                 }
+            }
+        }
+    }
+    // fourth family: native mania maps whose CircleSize is fractional (the key count is a rounding of it: N.5 rounds to even in
+    // the one-shot path) with notes on the lanes of the NEXT key count, trills, chords and holds - value differential only
+    for (i, cs) in ["2.5", "4.5", "6.5", "8.5", "5.5", "6.4", "3.5"].iter().enumerate() {
+        let lanes = cs.parse::<f32>().unwrap().ceil() as i64 + (i as i64 % 2);
+        let mut text = format!("osu file format v14\n\n[General]\nMode: 3\n\n[Difficulty]\nHPDrainRate:7\nCircleSize:{cs}\nOverallDifficulty:8\nApproachRate:5\nSliderMultiplier:1.4\nSliderTickRate:1\n\n[TimingPoints]\n0,400,4,2,0,100,1,0\n\n[HitObjects]\n");
+        let mut t = 500i64;
+        for j in 0..(if tier == "thorough" { 60 } else { 24 }) {
+            let lane = (j * 3 + rng.gen_range(0..2)) % lanes;
+            let x = (512 * lane + 256) / lanes;
+            t += [100i64, 100, 150, 200, 50][rng.gen_range(0..5)];
+            if j % 5 == 3 {
+                let _ = writeln!(text, "{x},192,{t},128,0,{}:0:0:0:0:", t + [120i64, 300, 700][rng.gen_range(0..3)]);
+            } else {
+                let _ = writeln!(text, "{x},192,{t},1,0");
+            }
+            if j % 4 == 1 {
+                // chord: the neighbouring lane at the same time
+                let x2 = (512 * ((lane + 1) % lanes) + 256) / lanes;
+                let _ = writeln!(text, "{x2},192,{t},1,0");
+            }
+        }
+        if let Ok(map) = Beatmap::from_bytes(text.as_bytes()) {
+            maps_used += 1;
+            for d in [rosu_pp::Difficulty::new(), rosu_pp::Difficulty::new().mods(64u32)] {
+                value_checks(&mut rec, &map, &d, &format!("mania CircleSize {cs} lanes {lanes}"));
             }
         }
     }
